@@ -15,12 +15,26 @@ use crate::reqgen::{self, BodyCheck, ReqPlan};
 use crate::runner::{violation, RunCtx, RunReport, Stats, Verdict};
 use crate::urlref;
 
+#[cfg(feature = "native")]
+fn ca_cert() -> native_tls::Certificate {
+    native_tls::Certificate::from_pem(crate::tlspeer::CA_PEM.as_bytes()).expect("CA pem")
+}
+#[cfg(all(feature = "rustls-backend", not(feature = "native")))]
+fn ca_cert() -> rustls::pki_types::CertificateDer<'static> {
+    rustls_pemfile::certs(&mut crate::tlspeer::CA_PEM.as_bytes()).next().unwrap().unwrap()
+}
+
 const PROXY_HOST: &str = "proxy.test";
 const PROXY_IP: &str = "10.0.0.9";
 const PROXY_PORT: u16 = 3128;
 
 fn gen_chain(g: &mut G, first_path: &str) -> Graph {
     let len = g.range(1, 3) as usize;
+    // scheme change: the last redirect points at an https origin
+    let to_https = g.chance(1, 4);
+    if to_https {
+        g.probe("redirect-changes-scheme-to-https");
+    }
     let mut nodes: Vec<Node> = Vec::new();
     let h0 = g.pick(HOSTS).0;
     let p0 = *g.pick(PORTS);
@@ -28,6 +42,7 @@ fn gen_chain(g: &mut G, first_path: &str) -> Graph {
     for i in 0..len {
         let status = *g.pick(FOLLOWED);
         let (loc, form): (String, &'static str) = match g.below(3) {
+            _ if to_https && i + 1 == len => ("https://secure.test/final?tls=1".to_string(), "absolute-https"),
             0 => {
                 let h = g.pick(HOSTS).0;
                 let port = *g.pick(PORTS);
@@ -99,6 +114,31 @@ pub fn scenario(g: &mut G, ctx: &RunCtx) -> RunReport {
             })),
         );
     }
+    // https origin for the scheme-changing hop
+    let seen_tls = Arc::new(Mutex::new(Seen::default()));
+    {
+        let sip: IpAddr = "10.0.0.5".parse().unwrap();
+        sim.add_host("secure.test", vec![sip]);
+        let seen = seen_tls.clone();
+        let tlog = Arc::new(Mutex::new(crate::tlspeer::TlsLog::default()));
+        sim.add_listener(
+            sip,
+            443,
+            ConnectBehaviour::Accept { latency_ns: NS_PER_MS },
+            Some(Box::new(move |i| {
+                let inner = HttpPeer::new(
+                    Arc::new(|_r, _c| {
+                        let mut s = crate::peers::Script::default();
+                        s.acts.push(crate::peers::Act::Send(b"HTTP/1.1 200 OK\r\nContent-Length: 3\r\n\r\ntls".to_vec()));
+                        s.acts.push(crate::peers::Act::Fin);
+                        s
+                    }),
+                    seen.clone(),
+                );
+                Box::new(crate::tlspeer::TlsPeer::new("good", Box::new(inner), tlog.clone(), i.conn))
+            })),
+        );
+    }
     let url0 = gr.nodes[0].url.clone();
     let no_proxy2: Vec<String> = no_proxy.iter().map(|s| s.to_string()).collect();
     let out = sim.run(|| {
@@ -110,7 +150,7 @@ pub fn scenario(g: &mut G, ctx: &RunCtx) -> RunReport {
                 pb = pb.add_no_proxy_host(n);
             }
         }
-        rb = rb.proxy_settings(pb.build());
+        rb = rb.proxy_settings(pb.build()).add_root_certificate(ca_cert());
         match plan.send(rb) {
             Ok(r) => Ok((r.status().as_u16(), r.url().to_string())),
             Err(e) => Err(err_kind(&e)),
@@ -136,7 +176,8 @@ pub fn scenario(g: &mut G, ctx: &RunCtx) -> RunReport {
                 for (i, c) in out.history.conns.iter().enumerate() {
                     let node = &gr.nodes[i];
                     let (host, port, _pq) = urlref::http_target(&node.url).unwrap();
-                    let is_proxied = proxied(&host);
+                    let is_https = node.url.starts_with("https://");
+                    let is_proxied = !is_https && proxied(&host);
                     if let Some(p) = prev_proxied {
                         if p != is_proxied {
                             proxy_flip = true;
@@ -144,7 +185,13 @@ pub fn scenario(g: &mut G, ctx: &RunCtx) -> RunReport {
                     }
                     prev_proxied = Some(is_proxied);
                     // dialled peer belongs to this hop's URL (or to the proxy selected for it)
-                    let want_addr = if is_proxied { format!("{}:{}", PROXY_IP, PROXY_PORT) } else { format!("{}:{}", c09::ip_of(&host), port) };
+                    let want_addr = if is_proxied {
+                        format!("{}:{}", PROXY_IP, PROXY_PORT)
+                    } else if is_https {
+                        format!("10.0.0.5:{}", port)
+                    } else {
+                        format!("{}:{}", c09::ip_of(&host), port)
+                    };
                     if c.addr.to_string() != want_addr {
                         v = violation(
                             format!("hop-dialled-wrong-peer:{}", if is_proxied { "should-use-proxy" } else { "should-go-direct" }),
@@ -152,7 +199,22 @@ pub fn scenario(g: &mut G, ctx: &RunCtx) -> RunReport {
                         );
                         break;
                     }
-                    let bytes = c.client_bytes();
+                    let bytes = if is_https {
+                        // the request travelled inside TLS: take what the TLS peer decrypted and parsed
+                        match seen_tls.lock().unwrap().requests.first() {
+                            Some((_, Ok(r))) => reencode(r),
+                            Some((_, Err(m))) => {
+                                v = violation(format!("hop-request-malformed:{}", plan.body_name()), format!("hop {} (https): {}", i, m));
+                                break;
+                            }
+                            None => {
+                                v = violation("hop-request-missing:https", format!("hop {} to {}: nothing arrived inside TLS", i, node.url));
+                                break;
+                            }
+                        }
+                    } else {
+                        c.client_bytes()
+                    };
                     let r = match parse_request(&bytes) {
                         ReqParse::Complete(r) => r,
                         ReqParse::Incomplete => {
@@ -180,7 +242,8 @@ pub fn scenario(g: &mut G, ctx: &RunCtx) -> RunReport {
                             break;
                         }
                         Ok(authority) => {
-                            let want_auth = if port == 80 { host.clone() } else { format!("{}:{}", host, port) };
+                            let default_port = if is_https { 443 } else { 80 };
+                            let want_auth = if port == default_port { host.clone() } else { format!("{}:{}", host, port) };
                             if is_proxied {
                                 if authority.as_deref() != Some(want_auth.as_str()) {
                                     v = violation("hop-absolute-target-authority", format!("hop {}: target authority {:?}, expected {:?}", i, authority, want_auth));
@@ -246,4 +309,32 @@ pub fn scenario(g: &mut G, ctx: &RunCtx) -> RunReport {
             String::new()
         },
     }
+}
+
+/// serialise a parsed request back into wire form (used for the hop that was observed after decryption)
+fn reencode(r: &crate::httpref::ParsedRequest) -> Vec<u8> {
+    let mut v = format!("{} {} HTTP/1.1\r\n", r.method, r.target).into_bytes();
+    for (n, val) in &r.headers {
+        v.extend_from_slice(n.as_bytes());
+        v.extend_from_slice(b": ");
+        v.extend_from_slice(val);
+        v.extend_from_slice(b"\r\n");
+    }
+    v.extend_from_slice(b"\r\n");
+    match &r.framing {
+        crate::httpref::ReqFraming::Chunked(chunks) => {
+            let mut p = 0;
+            for c in chunks {
+                v.extend_from_slice(format!("{:x}\r\n", c).as_bytes());
+                v.extend_from_slice(&r.body[p..p + c]);
+                v.extend_from_slice(b"\r\n");
+                p += c;
+            }
+            for _ in 0..r.zero_chunks.max(1) {
+                v.extend_from_slice(b"0\r\n\r\n");
+            }
+        }
+        _ => v.extend_from_slice(&r.body),
+    }
+    v
 }
